@@ -385,6 +385,35 @@ func runC12(c *core.Ctx) {
 			one([]byte(wl.ShortAt(alpha, L, i)), i)
 		}
 	}
+	// attribute blocks in every form and order on headings and fences (the attribute parser builds values out of source bytes)
+	n3 := c.PerShard(c.N(60000, 3000000))
+	for i := 0; i < n3; i++ {
+		var src []byte
+		switch i % 4 {
+		case 0:
+			src = append([]byte("# heading"), wl.AttrBlock(r)...)
+		case 1:
+			src = append(append([]byte("Setext heading"), wl.AttrBlock(r)...), "\n===\n"...)
+		case 2:
+			src = append(append([]byte("```go"), wl.AttrBlock(r)...), "\ncode\n```\n"...)
+		default:
+			src = append(append([]byte("## a *b*"), wl.AttrBlock(r)...), wl.Soup(r, 6)...)
+		}
+		one(src, i)
+		c.Count("attribute_documents", 1)
+	}
+	// scalable families at boundary sizes
+	k := 0
+	for fi, fam := range wl.DeepFamilies {
+		for _, n := range wl.BoundarySizes {
+			k++
+			if !c.Mine(k) || fi < wl.FirstLimitFamily && n > 257 {
+				continue
+			}
+			one(fam.Gen(n), k)
+			c.Count("family_cases", 1)
+		}
+	}
 	n2 := c.PerShard(c.N(160000, 12000000))
 	for i := 0; i < n2; i++ {
 		src := wl.Mix(r, corpus)
